@@ -167,7 +167,7 @@ class Models:
             self.froms[("typing", n)] = TypeV("typing." + n)
         self.froms[("__future__", "annotations")] = None
         self.froms[("itertools", "count")] = Builtin("count", lambda I, a, k: _unsup("itertools.count"))
-        self.froms[("itertools", "product")] = Builtin("product", lambda I, a, k: _unsup("itertools.product"))
+        self.froms[("itertools", "product")] = Builtin("product", lambda I, a, k: ProductV(a[0], a[1]) if len(a) == 2 else _unsup("itertools.product arity"))
         self.froms[("itertools", "chain")] = Builtin("chain", lambda I, a, k: _unsup("itertools.chain"))
         self.froms[("dataclasses", "dataclass")] = Builtin("dataclass", lambda I, a, k: a[0] if a else Builtin("dataclass()", lambda I2, a2, k2: a2[0]))
         self.modules["dataclasses"] = ModelModule("dataclasses", {})
@@ -359,6 +359,8 @@ class Models:
         return cur
 
     def m_sorted(self, I, args, kw):
+        if type(args[0]).__name__ == "OpaqueMsg":
+            return args[0]
         s = I.iter_seq(args[0])
         key = kw.get("key")
         rev = kw.get("reverse", False)
@@ -374,7 +376,8 @@ class Models:
                 return PyList([items[i] for i in order])
             if len(items) <= 1:
                 return PyList(list(items))
-        raise Unsupported(f"sorted over {args[0]!r}")
+        # not modelled: the result may be stored but any inspection of it is unsupported
+        return LazyUnsupported(f"sorted over {type(args[0]).__name__}")
 
     def m_reversed(self, I, args, kw):
         s = I.iter_seq(args[0])
@@ -526,6 +529,8 @@ class Models:
                 if all(isinstance(x, (str, int, list)) for x in conc) and all(not isinstance(x, list) or all(isinstance(e, str) for e in x) for x in conc):
                     return getattr(s, name)(*conc)
                 if name == "join":
+                    if type(a[0]).__name__ == "OpaqueMsg":
+                        return FmtV(("join", s, "<message>"))
                     seq = I.iter_seq(a[0])
                     if isinstance(seq, PyList):
                         return FmtV(("join", s, tuple(seq.items)))
@@ -597,6 +602,106 @@ class Models:
     def pymod(self, I, a, b):
         q = self.floordiv(I, a, b)
         return SInt(a - q.z * b)
+
+
+class LazyUnsupported:
+    """Result of an unmodelled pure operation: it may be stored and passed around; any use raises Unsupported."""
+
+    def __init__(self, why):
+        self.why = why
+
+    def _no(self, *a, **k):
+        raise Unsupported(self.why)
+
+    pvc_getattr = pvc_getitem = pvc_iter = pvc_len = pvc_truth = pvc_call = pvc_list = pvc_eq = pvc_contains = _no
+
+
+class ProductV:
+    """itertools.product(A, B) of two symbol containers; only the idiom `[(x, y) for x, y in product(A, B) if x != y]` is modelled."""
+
+    def __init__(self, a, b):
+        self.a, self.b = a, b
+
+    def pvc_comprehension(self, I, gen, elt_thunk):
+        import ast as _ast
+
+        ok = isinstance(gen.target, _ast.Tuple) and len(gen.target.elts) == 2 and len(gen.ifs) <= 1
+        if not ok:
+            raise Unsupported("comprehension over product()")
+        distinct = False
+        if gen.ifs:
+            t = gen.ifs[0]
+            names = [e.id for e in gen.target.elts if isinstance(e, _ast.Name)]
+            if isinstance(t, _ast.Compare) and len(t.ops) == 1 and isinstance(t.ops[0], _ast.NotEq) and isinstance(t.left, _ast.Name) and isinstance(t.comparators[0], _ast.Name) and {t.left.id, t.comparators[0].id} == set(names):
+                distinct = True
+            else:
+                raise Unsupported("filter over product() other than x != y")
+        return PairSeqV(self.a, self.b, distinct)
+
+
+class PairSeqV:
+    """[(x, y) for x in A for y in B (if x != y)]"""
+
+    pvc_type = "list"
+
+    def __init__(self, a, b, distinct):
+        self.a, self.b, self.distinct = a, b, distinct
+
+    def pvc_binop(self, I, op, other, swapped):
+        import ast as _ast
+
+        if isinstance(op, _ast.Add):
+            return HeteroSeqV([other, self] if swapped else [self, other])
+        return NotImplemented
+
+
+class HeteroSeqV:
+    """Concatenation of sequences of different element kinds (symbols, pairs)."""
+
+    pvc_type = "list"
+
+    def __init__(self, parts):
+        self.parts = parts
+
+    def pvc_set(self, I):
+        return HeteroSetV(self.parts)
+
+
+class HeteroSetV:
+    pvc_type = "set"
+
+    def __init__(self, parts):
+        self.parts = parts
+
+    def pvc_comprehension(self, I, gen, elt_thunk):
+        from .symtheory import OpaqueMsg
+
+        return OpaqueMsg()  # only ever rendered into an error message
+
+    def pvc_contains(self, I, x):
+        from .symtheory import SymV, set_membership
+
+        res = []
+        for part in self.parts:
+            if isinstance(part, PairSeqV):
+                if isinstance(x, tuple) and len(x) == 2 and all(isinstance(e, SymV) for e in x):
+                    ma, mb = set_membership(getattr(part.a, "set", part.a)), set_membership(getattr(part.b, "set", part.b))
+                    if ma is None or mb is None:
+                        raise Unsupported("pair membership")
+                    c = z3.And(ma(x[0].z), mb(x[1].z))
+                    if part.distinct:
+                        c = z3.And(c, x[0].z != x[1].z)
+                    res.append(c)
+                continue
+            src = getattr(part, "set", part)
+            m = set_membership(src)
+            if m is None:
+                raise Unsupported(f"membership in {part!r}")
+            if isinstance(x, SymV):
+                res.append(m(x.z))
+        if not res:
+            return False
+        return wrap(z3.Or(*res))
 
 
 class ConcreteSet:
